@@ -79,21 +79,25 @@ type Verdict struct {
 
 // Case is one concrete element of the explored space.
 type Case struct {
-	Key   string            // readable unique identification
-	Feat  map[string]string // structured coordinates in the space (matched by known findings)
-	Srcs  []string          // programs assembled (each independently, on the real code)
-	Judge func(rs []*Result) Verdict
-	Path  []int
-	Cost  int
-	Index int
+	Key  string            // readable unique identification
+	Feat map[string]string // structured coordinates in the space (matched by known findings)
+	Srcs []string          // programs assembled (each independently, on the real code)
+	// FreshRefs: Srcs[1:] are reference programs of a differential oracle; each is assembled as the only
+	// assembly of a fresh process (memoised per text), so that state a long-lived worker may have picked
+	// up from earlier assemblies cannot make the reference wrong in the same way as the program under test
+	FreshRefs bool
+	Judge     func(rs []*Result) Verdict
+	Path      []int
+	Cost      int
+	Index     int
 }
 
 // Scenario is one bounded space + oracle.
 type Scenario struct {
-	Name  string
-	Bound int // deviation bound; <0 = none
-	Build func(c *Chooser) *Case // nil = infeasible combination (counted as pruned)
-	Rule  string
+	Name   string
+	Bound  int                    // deviation bound; <0 = none
+	Build  func(c *Chooser) *Case // nil = infeasible combination (counted as pruned)
+	Rule   string
 	Bounds map[string]any
 }
 
